@@ -58,7 +58,8 @@ NEG = {"Lt": "Ge", "Ge": "Lt", "Gt": "Le", "Le": "Gt", "Eq": "Ne", "Ne": "Eq"}
 
 
 class Obligation:
-    __slots__ = ("bi", "kind", "what", "goals", "ok", "span", "snippet", "detail", "exp", "why", "unwrap_of")
+    __slots__ = ("bi", "kind", "what", "goals", "ok", "span", "snippet", "detail", "exp", "why", "unwrap_of", "failed",
+                 "lifted")
 
     def __init__(self, bi, kind, what, span, snippet, exp):
         self.bi = bi
@@ -72,6 +73,8 @@ class Obligation:
         self.detail = ""
         self.why = ""
         self.unwrap_of = None
+        self.failed = []
+        self.lifted = False
 
 
 class Analysis:
@@ -533,6 +536,7 @@ class Analyzer(Analysis):
         """goals: list of (Lin e, text) meaning e <= 0"""
         o.goals = goals
         bad = [(e, txt) for e, txt in goals if e is None or not self.holds(st, e)]
+        o.failed = bad
         o.ok = not bad
         if bad:
             o.detail = "; ".join("cannot show %s   [%s <= 0]" % (txt, e) for e, txt in bad)
@@ -960,6 +964,23 @@ class Analyzer(Analysis):
             for a, v in zip(args, vals):
                 if v is not None and v[0] == "slice" and data_len is None:
                     data_len = self.length_of(st, v[1])
+            argmap = {}
+            for i, (a, v) in enumerate(zip(args, vals)):
+                if v is None:
+                    continue
+                if v[0] == "ref" and len(v) > 2:
+                    ta = self.op_ty(a)
+                    if ta and ta["k"] == "ref" and self.types[ta["t"]]["k"] == "int":
+                        argmap["(*_%d)@entry" % (i + 1)] = self.as_lin(st.store.get(v[1]))
+                    else:
+                        ln0 = st.store.get("len:" + v[1])
+                        if ln0 is not None:
+                            argmap["len(_%d)" % (i + 1)] = ln0[1]
+                elif v[0] == "slice":
+                    argmap["len(_%d)" % (i + 1)] = self.length_of(st, v[1])
+                elif v[0] == "lin":
+                    argmap["_%d" % (i + 1)] = v[1]
+            ev["argmap"] = argmap
             self.havoc_args(st, args, vals, bi)
             is_result = dest_ty["k"] == "adt" and dest_ty["name"].endswith("::Result")
             cs = "cs%d" % bi
@@ -1225,6 +1246,7 @@ class Analyzer(Analysis):
                 dead.add(f)
         self.cands[B] = keep
         facts |= keep
+        self.join_info[B] = (phis, incoming, list(back_flags))
         return State(store, facts)
 
     # ------------------------------------------------------------------ driver
@@ -1397,6 +1419,7 @@ class Analyzer(Analysis):
         self.modes = self.mode_locals()
         self.live_in, self.always_live = self.liveness()
         self.cands = {}
+        self.join_info = {}
         self.dead_cands = {}
         self.assumed_once = set()
         edge = {}          # (src node, dst node) -> State
